@@ -14,7 +14,8 @@ THEOREMS = ['C17.print_parse', 'C17.parse_print_parse', 'C17.slice_floats_in_ord
             'C17.slicer_text_is_the_model', 'C17.slicer_text_is_the_model_keys', 'C17.supporting_database_text_is_the_model',
             'C17.translated_slices_verify', 'C17.translated_slicer_nonvacuous',
             'C17.parser_text_is_the_model', 'C17.encoder_text_is_the_model', 'C17.print_parse_text', 'C17.print_parse_text_nonvacuous',
-            'C17.printer_text_is_tokens', 'C17.print_parse_real_text', 'C17.printer_drops_blank_label']
+            'C17.printer_text_is_tokens', 'C17.print_parse_real_text', 'C17.printer_keeps_blank_label',
+            'C17.old_printer_dropped_blank_label']
 
 
 def hx(s):
@@ -51,9 +52,18 @@ def flat_statements(st):
 COMMENT = re.compile(r'\$\(((.|\n)(?<!\$\)))*\$\)')
 
 
+IGNORED = re.compile(r'[ \n\t\f\r]+')
+
+
+def split_ws(text):
+    """split at the characters the grammar ignores (`%ignore /[ \\n\\t\\f\\r]+/`) — NOT `str.split()`, which also splits at U+000B,
+    U+001C..U+001F, U+0085, U+00A0, ...: for lark those are ordinary characters of a TOKEN"""
+    return [t for t in IGNORED.split(text) if t]
+
+
 def lex(src):
-    """the lark lexer's job (outside the Lean model): drop `$( ... $)` comments, split at whitespace"""
-    return COMMENT.sub(' ', src).split()
+    """the lark lexer's job (outside the Lean model): drop `$( ... $)` comments, split at the ignored characters"""
+    return split_ws(COMMENT.sub(' ', src))
 
 
 def mutate_tokens(rng, toks):
@@ -88,7 +98,19 @@ REGRESSION = [
     # a $d over four variables of which the slice needs two, between the axiom and the lemma that needs it
     ('$c |- ( ) foo #Pattern $. $v x y z w $. x-f $f #Pattern x $. y-f $f #Pattern y $. z-f $f #Pattern z $. w-f $f #Pattern w $.\n'
      '$d w x z y $. ${ $d x y $. ax1 $a |- ( foo x y ) $. $} th $p |- ( foo x y ) $= ( ax1 ) ABC $.', ['th']),
+    # labels that Python's str.isspace takes for whitespace but the lexer does not (the defect of Printer.is_line_buffer_empty repaired
+    # by 5aefd01): U+00A0 (a $f) at the start of a top-level line, U+000B (an $e) at the start of a continuation line of the lemma's block;
+    # both are in the slice of the lemma, which is printed and re-parsed too.  (They are NOT cited between the parentheses of the
+    # compressed proof: deconstruct_compressed_proof splits the label list with str.split(), see the report of this change.)
+    ('$c |- ( ) foo #Pattern $. $v x $.\n\xa0 $f #Pattern x $.\nax1 $a |- ( foo x x ) $.\n'
+     '${ h $e |- ( foo x x ) $. \x0b $e |- ( foo x x ) $. th $p |- ( foo x x ) $= ( ax1 ) AD $. $}', ['th']),
 ]
+
+# the former counterexamples themselves, and tokens that END in such a character (Printer.flush still rstrips the last string of a line;
+# the Encoder never ends a line with a user token): printed and re-parsed by the real code, compared with the model and the Printer model
+BLANK_LABELS = ['\xa0 $a x $.', '\x0b $a x $.', '${ l $a a $. \x0b $a b $. $}', '${ \xa0 $a a $. \x1c $a b $. ${ \x85 $a c $. \u3000 $a d $. $} $}',
+                '$c a\xa0 $. $v v\x0b $. l\xa0 $f t\xa0 v\x0b $. ${ $d v\x0b v\x0b $. h\xa0 $e x\xa0 $. $} p $p ( a\xa0 b\xa0 ) $= q\xa0 $.',
+                '\xa0 $a x $. \xa0 $.', 'a\x0bb $a x $.']
 
 
 def run(rep):
@@ -115,6 +137,7 @@ def run(rep):
         sources.append(' '.join(mutate_tokens(rng, lex(src))))        # malformed / odd stream
     sources += ['', '$c a $.', 'l $a ( $.', 'l $a ( a ) $.', 'l $a ( a b ) $.', 'l $a ( ( a b ) c ) ) $.', '${ $}', '$v x $. l $f t x $. ${ $d x x $. $}',
                 'l $p a $= $.', 'l $p a $= ? $.', '$v x $. l $a |- ( x y x ) x $.', 'l $a |- y $. $v y $. l2 $a |- y $.']
+    sources += BLANK_LABELS
     pa = core.py_h(['mmast ' + (s.encode().hex() or '-') for s in sources])
     ml = []
     for s in sources:
@@ -145,13 +168,13 @@ def run(rep):
             findings.append({'key': 'roundtrip', 'flag': flag, 'source': s[-2000:], 'printed': printed[-2000:],
                              'what': f'printing a parsed database and parsing the text again does not give the same database ({flag})'})
         src_toks = lex(s)
-        if printed.split() != src_toks:
+        if split_ws(printed) != src_toks:
             findings.append({'key': 'print-tokens', 'source': s[-1500:], 'printed': printed[-1500:],
                              'what': 'the printed database is not the token sequence that was parsed'})
         to_print.append((dbsx, printed, s))
     mp = core.lean_drv(['mmprint ' + d for d, _, _ in to_print])
     for (d, printed, s), m in zip(to_print, mp):
-        if m != toks_sx(printed.split()):
+        if m != toks_sx(split_ws(printed)):
             findings.append({'key': 'model-print', 'python': printed[-1200:], 'model': m[:600], 'source': s[-1200:],
                              'what': 'correspondence: Encoder.encode_string and the Lean model of it print different token sequences'})
     # the TEXT: the Encoder as translated from ast.py (Pi2/Gen/MMAst.lean) through the model of Printer (Pi2/MMAstSupport.lean) vs the
